@@ -311,7 +311,21 @@ func c20Run(c *core.Ctx, idx int) {
 		})
 		st := stacks[r.Intn(len(stacks))]
 		var odd *TNode
-		switch r.Intn(7) {
+		switch r.Intn(9) {
+		case 7, 8:
+			// a Condition holding a Stack, in a state in which it refuses new expressions (error recorded, read-only,
+			// no-nesting raised afterwards): what it holds stays what it holds
+			odd = &TNode{T: "cond", Kw: "state", Op: &OpDesc{Code: 1}, Expr: &TNode{T: "stack", Kind: "OR", Kids: []*TNode{
+				{T: "stack", Kind: "AND", Kids: []*TNode{{T: "leaf", Leaf: &LeafDesc{Tag: "str", S: "st-a"}}, {T: "leaf", Leaf: &LeafDesc{Tag: "str", S: "st-b"}}}}, {T: "leaf", Leaf: &LeafDesc{Tag: "str", S: "st-c"}}}}}
+			switch r.Intn(3) {
+			case 0:
+				odd.LeftErr = true
+			case 1:
+				odd.ReadOnly = true
+			default:
+				odd.NoNest = true
+			}
+			st.Kids = append(st.Kids, &TNode{T: "stack", Kind: "AND", Kids: []*TNode{{T: "stack", Kind: "OR", Kids: []*TNode{{T: "leaf", Leaf: &LeafDesc{Tag: "str", S: "env-x"}}, {T: "leaf", Leaf: &LeafDesc{Tag: "str", S: "env-y"}}}}}})
 		case 4:
 			// a Condition inside a Condition, the inner one holding a Stack
 			odd = &TNode{T: "cond", Kw: "outer", Op: &OpDesc{Code: 1}, Expr: &TNode{T: "cond", Kw: "inner", Op: &OpDesc{Code: 6},
